@@ -132,7 +132,7 @@ theorem stack_restored (p : Prog) (k : Cache) (hk : Consistent p k) (c : Ctx) (h
   simpa using this
 
 /-- a call that fails (run-time error, stack exhaustion at any depth, unknown function, too many
-    arguments) on a context that has not exited leaves `exit_level` at NONE, the stack restored, the
+    arguments, a by-reference copy-back rejected after the callee already executed `return`) on a context that has not exited leaves `exit_level` at NONE, the stack restored, the
     application's handles untouched and every reference count exact: the context differs from the
     one before the call only by the documented effects of the statements that did run (globals,
     streams, records, the sticky error number), so the next call is admitted and behaves as if the
